@@ -201,6 +201,20 @@ Definition resolve_sel (lbls : list (option (nat * Z))) (offs : list Z) (fx : fi
   | _ => SSkip
   end.
 
+(* CodeHolder::bind_label first checks the displacement of every fixup it would patch (same section, not linked to a relocation):
+   if one cannot be encoded the bind is refused with kInvalidDisplacement and NOTHING changes (fix 6b578fc) *)
+Definition bind_precheck (l sec : nat) (off : Z) (fxs : list fixup) (rs : list refrec) : bool :=
+  forallb (fun fx =>
+    match bind_sel l sec off fx with
+    | STry lay lo =>
+      match nth_error rs (fx_id fx) with
+      | Some r => match write_offset (fmt_of_kind (fx_kind fx)) (r_word r) (disp (lay_so lay) (lay_to lay) lo (fx_off fx) (fx_rel fx)) with
+                  | Some _ => true | None => false end
+      | None => true
+      end
+    | _ => true
+    end) fxs.
+
 (* ---- one operation ---- *)
 Definition step (s : state) (o : op) : state * err :=
   match o with
@@ -244,6 +258,7 @@ Definition step (s : state) (o : op) : state * err :=
     | Some (Some _) => (s, EAlreadyBound)
     | Some None =>
       let off := s_len (cur_sec s) in
+      if negb (bind_precheck l (cur s) off (pending s) (refs s)) then (s, EInvalidDisp) else
       let '(prk, rl, nrel) := bind_rel l (cur s) off (pending_rel s) (relocs s) in
       let w := resolve_list (bind_sel l (cur s) off) true (pending s) (refs s) in
       let s1 := set_labels s (upd (labels s) l (Some (cur s, off))) in
